@@ -7,4 +7,6 @@ import Csproto.Props.C16
 #print axioms Csproto.C16.collision_witness
 #print axioms Csproto.C16.name_plan_fact
 #print axioms Csproto.C16.generator_keeps_no_state_fact
+#print axioms Csproto.C16.value_option_stores_fact
+#print axioms Csproto.C16.special_names_order_free
 #print axioms Csproto.C16.routing_total
